@@ -812,7 +812,7 @@ func (h *History) lines() []rline {
 				add(c.EndAt, a+2, "cli", fmt.Sprintf("conn%d client constructor error: %s", c.ID, c.Client.NewErr))
 			}
 			for i, r := range c.Client.Results {
-				add(r.End, a+2, "cli", fmt.Sprintf("conn%d client op%d %s -> err=%q statuses=%v close2=%v/%q raw=%d/%d", c.ID, i, opNames[r.Kind], r.Err, r.Statuses, r.Close2Set, r.Close2Err, r.RawBefore, r.RawAfter))
+				add(r.End, a+2, "cli", fmt.Sprintf("conn%d client op%d %s -> err=%q statuses=%v close2=%v/%q raw=%d/%d stale=%v/%q/%d", c.ID, i, opNames[r.Kind], r.Err, r.Statuses, r.Close2Set, r.Close2Err, r.RawBefore, r.RawAfter, r.StaleSet, r.StaleErr, r.StaleRaw))
 			}
 		}
 	}
